@@ -435,9 +435,11 @@ def run(report):
 
     def run_file_case(c):
         rng = C.case_rng(report.seed, c["index"], "c12f")
-        mode = rng.choice(["root", "import", "mod", "import-in-mod", "mod-in-dir"])
+        mode = rng.choice(["root", "import", "mod", "import-in-mod", "mod-in-dir", "outside", "mod-outside"])
         with C.scratch("c12") as d:
+            d = os.path.realpath(d)
             files = {}
+            cwd = d
             if mode == "root":
                 files["justfile"] = c["src"]
                 want_path = "justfile"
@@ -454,6 +456,17 @@ def run(report):
                 files["sub/m.just"] = "import 'deep/i.just'\n"
                 files["sub/deep/i.just"] = c["src"]
                 want_path = "sub/deep/i.just"
+            elif mode == "outside":
+                # a file outside the root justfile's directory is named by its whole path
+                files["proj/justfile"] = "import '../other/x.just'\nok:\n\techo ok\n"
+                files["other/x.just"] = c["src"]
+                want_path = os.path.join(d, "other/x.just")
+                cwd = os.path.join(d, "proj")
+            elif mode == "mod-outside":
+                files["proj/justfile"] = "mod m '../other/sub/m.just'\nok:\n\techo ok\n"
+                files["other/sub/m.just"] = c["src"]
+                want_path = os.path.join(d, "other/sub/m.just")
+                cwd = os.path.join(d, "proj")
             else:
                 files["justfile"] = "mod m\nok:\n\techo ok\n"
                 files["m/mod.just"] = c["src"]
@@ -463,12 +476,17 @@ def run(report):
                 os.makedirs(os.path.dirname(p), exist_ok=True)
                 with open(p, "wb") as f:
                     f.write(text.encode("utf-8"))
-            rc, out, err = C.run_just(["--color", "never", "--list"], d)
-            return mode, want_path, rc, err.decode("utf-8", "replace")
+            rc, out, err = C.run_just(["--color", "never", "--list"], cwd)
+            comps = lambda p_: [x for x in p_.split("/") if x]
+            return mode, want_path, rc, err.decode("utf-8", "replace").replace(d, "<D>"), {"op": "display", "root": comps(cwd), "path": comps(want_path if want_path.startswith("/") else os.path.join(cwd, want_path))}, d
+
+    fres = C.pmap(run_file_case, fcases)
+    dmodel = C.Driver().pbatch([x[4] for x in fres], chunk=2000)
 
     modes = {}
-    for c, (mode, want_path, rc, err) in zip(fcases, C.pmap(run_file_case, fcases)):
+    for c, (mode, want_path, rc, err, dreq, dd), dm in zip(fcases, fres, dmodel):
         modes[mode] = modes.get(mode, 0) + 1
+        want_path = want_path.replace(dd, "<D>")
         replay = {"src": c["src"], "kind": c["kind"], "mode": mode, "expected_token": c["token"], "op": "files", "index": c["index"]}
         off = len(c["prefix"].encode("utf-8"))
         ln = len(c["token"].encode("utf-8"))
@@ -484,6 +502,10 @@ def run(report):
             continue
         if got is not None and got.get("path") != want_path:
             report.failure("c12-wrong-file:%s" % mode, "the diagnostic names %r, the token is in %r" % (got.get("path"), want_path), dict(replay, stderr=err))
+            continue
+        if got is not None and dm["shown"].replace(dd, "<D>") != got.get("path"):
+            report.failure("c12-model-file-name", "the diagnostic names %r, Just.Loader.display gives %r" % (got.get("path"), dm["shown"]),
+                           dict(replay, correspondence="C12 file names vs Just.Loader.display", model=dm, impl=got.get("path")), no_input=True)
             continue
         if not same_context(got, want):
             report.failure("c12-context:%s" % c["kind"], "file:line:column / echoed line / carets do not identify the offending token: got %r want %r" % (got, want),
